@@ -5,7 +5,7 @@ from .. import core, energygen, faultgen
 class C23(core.Prop):
     id = "C23"
     drivers = [faultgen.DRIVER]
-    sizes = {"quick": 500, "thorough": 10000}
+    sizes = {"quick": 400, "thorough": 10000}
     max_workers = 6
     ready = True
     technique = ("property-based testing (Hypothesis): generated workloads with pstate changes and on/off switches on hosts / links with random "
